@@ -220,7 +220,11 @@ func (self BinaryConv) handleError(ctx context.Context, fsm *types.J2TStateMachi
 		}
 	case types.ERR_OOM_FIELD:
 		{
-			fsm.GrowFieldCache(types.J2T_FIELD_CACHE_SIZE)
+			// NOTICE: the native scan of unset fields restarts from the first field after fsm.SetPos(p),
+			// so the ids cached so far must be dropped and the cache must be able to hold more than last time
+			// (otherwise the same 4096 ids are cached again and again and the conversion never ends)
+			fsm.GrowFieldCache(cap(fsm.FieldCache))
+			fsm.FieldCache = fsm.FieldCache[:0]
 			fsm.SetPos(p)
 			return true, nil
 		}
